@@ -315,6 +315,9 @@ pub fn spec_choices(spec: &str) -> Vec<u32> {
     parse_spec(spec).2
 }
 
+/// Classifier for panics that escape a case function (see `run_case`).
+pub static ESCAPED_PANIC: std::sync::OnceLock<fn(&str) -> Option<(String, String)>> = std::sync::OnceLock::new();
+
 pub struct RunOpts {
     pub bound: u32,
     pub want_desc: bool,
@@ -335,8 +338,13 @@ pub fn run_case(f: CaseFn, spec: &str, o: &RunOpts) -> Reply {
     let res = std::panic::catch_unwind(std::panic::AssertUnwindSafe(|| f(&ctx)));
     if let Err(p) = res {
         let msg = panic_msg(&p);
-        // a panic that escapes the case function is a harness bug unless the case caught it itself
-        ctx.machinery_error(format!("harness panic: {msg}"));
+        // A panic that escapes the case function is a harness bug - unless it was raised by the code
+        // under test in a call the harness had not wrapped: the binary may register a classifier that
+        // turns such a panic into a violation (signature, detail) of the property being checked.
+        match ESCAPED_PANIC.get().and_then(|c| c(&msg)) {
+            Some((sig, detail)) => ctx.violation(sig, detail),
+            None => ctx.machinery_error(format!("harness panic: {msg}")),
+        }
     }
     let mut guard = ctx.inner.borrow_mut();
     let c = &mut *guard;
